@@ -1,6 +1,6 @@
 (* C04 — property theorems only (byte-level model of the fixed-point text functions). *)
-From Coq Require Import ZArith List Bool.
-From Verif Require Import common.Word64 C03.Model C04.Model C04.Proofs.
+From Coq Require Import ZArith List Bool Lia.
+From Verif Require Import common.Word64 C03.Model C03.Proofs C04.Model C04.Proofs C04.ProofsRT.
 Import ListNotations.
 Open Scope Z_scope.
 
@@ -23,6 +23,37 @@ Print Assumptions C04_comma_only_adds_separators.
 Theorem C04_unquote_quoted : forall s : bytes, unquote (34 :: s ++ [34]) = s.
 Proof. exact unquote_quote. Qed.
 Print Assumptions C04_unquote_quoted.
+
+(* ---- the round trip, for every value and every configuration (1..16 decimal places), f64 (wide = false: int64 with wrap-around,
+   ParseInt range errors) and f128 (wide = true: big.Int parsing, saturation): FromString applied to String, StringWithSign, Comma and
+   CommaWithSign of v returns exactly v. fitsw = the value is an int64 / an Int128. UnmarshalText/JSON/YAML call FromString on the
+   (unquoted) text; Unquote is covered by C04_unquote_quoted. ---- *)
+Theorem C04_string_roundtrip : forall places, (1 <= places <= 16)%nat -> forall wide v, fitsw wide v ->
+  fx_from_string places wide (fx_string places v) = POk v.
+Proof. exact roundtrip. Qed.
+Print Assumptions C04_string_roundtrip.
+Theorem C04_string_with_sign_roundtrip : forall places, (1 <= places <= 16)%nat -> forall wide v, fitsw wide v ->
+  fx_from_string places wide (fx_string_with_sign places v) = POk v.
+Proof. exact roundtrip_with_sign. Qed.
+Print Assumptions C04_string_with_sign_roundtrip.
+Theorem C04_comma_roundtrip : forall places, (1 <= places <= 16)%nat -> forall wide v, fitsw wide v ->
+  fx_from_string places wide (comma_from_string_num (fx_string places v)) = POk v /\
+  (0 <= v -> fx_from_string places wide (43 :: comma_from_string_num (fx_string places v)) = POk v).
+Proof. intros places Hp wide v H. split; [exact (roundtrip_comma places Hp wide v H)|exact (roundtrip_comma_with_sign places Hp wide v H)]. Qed.
+Print Assumptions C04_comma_roundtrip.
+(* Comma of a printed value only adds separators: removing the commas gives String() back *)
+Theorem C04_comma_of_string_only_adds_separators : forall places, (1 <= places <= 16)%nat -> forall v,
+  filter (fun c => negb (c =? 44)) (comma_from_string_num (fx_string places v)) = fx_string places v.
+Proof. intros places Hp v. apply comma_strip. apply string_numeral. exact Hp. Qed.
+Print Assumptions C04_comma_of_string_only_adds_separators.
+(* quoted JSON text: Unquote then FromString *)
+Theorem C04_quoted_roundtrip : forall places, (1 <= places <= 16)%nat -> forall wide v, fitsw wide v ->
+  fx_from_string places wide (unquote (34 :: fx_string places v ++ [34])) = POk v.
+Proof. intros places Hp wide v H. rewrite unquote_quote. apply roundtrip; assumption. Qed.
+Print Assumptions C04_quoted_roundtrip.
+(* non-vacuity: the extreme values meet fitsw *)
+Example C04_ex_fitsw : fitsw false (- SIGN) /\ fitsw false (SIGN - 1) /\ fitsw true (- P127) /\ fitsw true (P127 - 1).
+Proof. unfold fitsw, fits. repeat split; lia. Qed.
 
 (* regression examples: canonical text, the sign of -00.5, the int64 minimum, saturation of f128 *)
 Example C04_ex_string : fx_string 2 (-5) = [45; 48; 46; 48; 53] /\ fx_string 2 1230 = [49; 50; 46; 51] /\ fx_string 3 (-7000) = [45; 55].
